@@ -45,7 +45,7 @@ pub fn encode(c: &Cmd) -> Vec<u8> {
     }
 }
 
-fn topic_of(c: &Cmd) -> Option<&str> {
+pub fn topic_of(c: &Cmd) -> Option<&str> {
     match c {
         Cmd::Create { name, .. } | Cmd::Rollover { name, .. } => Some(name),
         _ => None,
@@ -72,7 +72,7 @@ pub fn canon(m: &Metadata) -> Result<Canon, String> {
     })
 }
 
-fn names_of(cmds: &[Cmd], out: &mut BTreeSet<String>) {
+pub fn names_of(cmds: &[Cmd], out: &mut BTreeSet<String>) {
     for c in cmds {
         match c {
             Cmd::Create { name, .. } | Cmd::Rollover { name, .. } => {
@@ -234,7 +234,7 @@ pub fn run_seq(cmds: &[Cmd]) -> SeqOutcome {
     o
 }
 
-fn short(c: &Cmd) -> String {
+pub fn short(c: &Cmd) -> String {
     format!("{:?}", c).chars().take(120).collect()
 }
 
